@@ -30,8 +30,29 @@ func roleOf(l *Loaded, v ssa.Value, recv string, d int) string {
 		if x.Name() == recv {
 			return ""
 		}
+		// positional, so that renaming a parameter does not change a role
+		if fn := x.Parent(); fn != nil {
+			for i, p := range fn.Params {
+				if p == x {
+					if fn.Signature.Recv() != nil {
+						if i == 0 {
+							return "recv"
+						}
+						return fmt.Sprintf("arg%d", i-1)
+					}
+					return fmt.Sprintf("arg%d", i)
+				}
+			}
+		}
 		return "param:" + x.Name()
 	case *ssa.FreeVar:
+		if fn := x.Parent(); fn != nil {
+			for i, fv := range fn.FreeVars {
+				if fv == x {
+					return fmt.Sprintf("free%d", i)
+				}
+			}
+		}
 		return "free:" + x.Name()
 	case *ssa.Convert:
 		return roleOf(l, x.X, recv, d+1)
@@ -71,14 +92,14 @@ func roleOf(l *Loaded, v ssa.Value, recv string, d int) string {
 			if s := storedInto(al); s != nil {
 				return roleOf(l, s, recv, d+1)
 			}
-			return "local:" + al.Comment
+			return "local"
 		}
 		return roleOf(l, x.X, recv, d+1)
 	case *ssa.Alloc:
 		if s := storedInto(x); s != nil {
 			return roleOf(l, s, recv, d+1)
 		}
-		return "local:" + x.Comment
+		return "local"
 	case *ssa.Call:
 		name := "call"
 		if b, ok := x.Call.Value.(*ssa.Builtin); ok {
